@@ -76,7 +76,8 @@ def run(plan):
             if opn == "refresh" and not ac.online:
                 res.fail("refresh offline although every report was well-formed", repr(step))
                 return
-            bad = compare_view(ac, dev.state, dev.state_len)
+            # (how an unnamed fan speed is shown depends on the learned profile: C11's subject)
+            bad = compare_view(ac, dev.state, dev.state_len, skip=("fan_speed",))
             if bad and opn == "refresh":
                 res.fail("refresh view differs: " + bad[0][0], repr(bad))
                 return
@@ -338,10 +339,16 @@ def space(tier):
         for _ in range(rng.randint(2, 5)):
             st = {"props": {str(pid): rng.choice(PV[pid]) for pid in pids}, "energy": rng.choice(ENERGIES),
                   "humidity": rng.choice(["37" + "00" * 15, "00" * 16, "ff" * 16])}
-            if rng.random() < 0.2:
-                st["op"] = rng.choice(["apply", "toggle"])
+            if rng.random() < 0.3:
+                st["op"] = rng.choice(["apply", "apply", "toggle"])
             steps.append(st)
         c = cfg(version)
+        # units with the short (legacy) state report, in any mode
+        c["state_len"] = rng.choice([24, 24, 16, 18, 19, 20, 22])
+        from .c01 import rand_state, to_dev_state
+        c["state"] = to_dev_state(rand_state(rng))
+        if rng.random() < 0.4:
+            c["state"]["mode"] = 6
         return {"config": c, "caps_profile": prof, "steps": steps}
     sp.add("well_formed_report_histories", 2500 if tier == "quick" else 300_000, history_fn)
     return sp
